@@ -2,7 +2,7 @@
 (* Spec -> code binding for the history dimension of C13.  TLC enumerates     *)
 (* EVERY session of SessionLen actions of TxSession.tla (queries and writers  *)
 (* in every order) and prints it with, after each action, the answer the      *)
-(* standard demands and the current fields.  The harness performs the session *)
+(* standard demands (and the other answers it admits) and the current fields.  The harness performs the session *)
 (* on ONE pycoin Tx object, compares each answer, and also compares the       *)
 (* object's totals with those of a fresh object built from the printed fields.*)
 EXTENDS TxSession, Json
@@ -12,24 +12,27 @@ VARIABLES acts, obs
 rvars == <<svars, acts, obs>>
 
 UnT(un)  == [i \in 1..Len(un) |-> << un[i].amt, un[i].scr >>]
+InT(in)  == [i \in 1..Len(in) |-> << in[i].src, in[i].idx >>]
 OutT(o)  == [i \in 1..Len(o) |-> << o[i].to, o[i].amt >>]
 DbT(d)   == [s \in 1..2 |-> [st |-> DBs[d][s].st, id |-> DBs[d][s].id, outs |-> UnT(DBs[d][s].outs)]]
 
 \* the constant world is printed once, the sessions refer to its lists/databases by index/name
 World == PrintT(ToJson([k |-> "world",
-                 ins   |-> [i \in 1..Len(Ins) |-> << Ins[i].src, Ins[i].idx >>],
+                 ins   |-> InT(Ins),
                  truth |-> [s \in 1..2 |-> UnT(Truth[s])],
                  lists |-> [j \in 1..Len(Lists) |-> UnT(Lists[j])],
                  pays  |-> OutT(Pays),
                  dbs   |-> [d \in DbNames |-> DbT(d)],
-                 un0   |-> UnT(Lists[1]), outs0 |-> OutT(InitOuts)]))
-Emit == Len(acts') = SessionLen => PrintT(ToJson([k |-> "session", acts |-> acts', obs |-> obs']))
+                 outs0 |-> OutT(InitOuts)]))
+Emit == Len(acts') = SessionLen => PrintT(ToJson([k |-> "session", born |-> born, acts |-> acts', obs |-> obs']))
 
 RInit == SInit /\ acts = << >> /\ obs = << >> /\ World
 RNext == /\ Len(acts) < SessionLen
          /\ SNext
          /\ acts' = Append(acts, last'.a)
-         /\ obs' = Append(obs, [r |-> last'.r, un |-> UnT(unspents'), outs |-> OutT(outs')])
+         \* r: what the machine (which refuses when the shape is wrong) answers; also: the other admissible answers
+         /\ obs' = Append(obs, [r |-> last'.r, also |-> AllowedFor(last'.a, ins', unspents', outs') \ {last'.r},
+                                ins |-> InT(ins'), un |-> UnT(unspents'), outs |-> OutT(outs')])
          /\ Emit
 RSpec == RInit /\ [][RNext]_rvars
 =============================================================================
